@@ -23,6 +23,7 @@ from mc.core import digest, VERIF
 
 PROPERTY = "C03"
 LEVEL = "model_checking"
+OWN_SCHEDULING = True      # this check drives the pools itself
 ENGINES = ["E4-schedule-exploration", "E3-explicit-state-history-search"]
 TECHNIQUE = ("stateless schedule exploration (all completion orders of a k-worker FIFO pool, "
              "deviation-bounded where stated) of the real builder under a controlled pool, over all rebuild "
